@@ -385,6 +385,7 @@ func Run(c *run.Ctx) {
 		}
 	}
 	phase("diff", func() { diffs(c, forKeys) })
+	phase("probe-state", func() { probeStateCases(c) })
 	phase("lift", func() { lifts(c, forKeys) })
 	phase("funcs", func() { funcsCases(c, forKeys) })
 	phase("layout", func() { layoutCases(c) })
